@@ -372,7 +372,7 @@ type Element struct {
 }
 
 func newElement(blob *share.Blob, pfbIndex, blobIndex, subtreeRootThreshold int) *Element {
-	numShares := share.SparseSharesNeeded(uint32(len(blob.Data())))
+	numShares := share.SparseSharesNeededWithSigner(uint32(len(blob.Data())), blob.ShareVersion() == share.ShareVersionOne)
 	return &Element{
 		Blob:      blob,
 		PfbIndex:  pfbIndex,
